@@ -143,7 +143,13 @@ pub fn gen_state_scenario(property: &str, seed: u64, thorough: bool) -> Scenario
   let mut srng = root.fork("schedule");
   let config = config_for(property, &mut crng);
   let base = features_for(property);
-  let f = Features::swarm(&base, &mut wrng);
+  let mut f = Features::swarm(&base, &mut wrng);
+  if matches!(property, "C08" | "C09" | "C10" | "C11") {
+    // the swarm may switch any group off, but a rune property needs runes
+    f.runestones = f.runestones.max(40);
+    f.etchings = f.etchings.max(30);
+    f.txs_per_block.1 = f.txs_per_block.1.max(2);
+  }
   let max_blocks = if thorough { 60 } else { 36 };
   let mut n = 4 + wrng.usize(max_blocks);
   if matches!(property, "C08" | "C09" | "C10" | "C11") {
